@@ -535,7 +535,7 @@ var bindOrigins = []string{"me@example.com", "me@example.com/res", `me@example.c
 // replies: how the scripted server answers the bind request with id ID
 var bindReplies = []string{
 	"result-jid-as-requested", "result-jid-other-resource", "result-jid-other-account", "result-jid-other-account-same-resource", "result-empty-bind", "result-no-payload",
-	"error-with-payload", "error-without-payload", "wrong-id", "type-get", "message-kind", "malformed", "eof", "stream-error", "text",
+	"error-with-payload", "error-without-payload", "wrong-id", "no-id", "empty-id", "type-get", "message-kind", "malformed", "eof", "stream-error", "text",
 }
 
 func bindClientBody(c *nd.Ctx) nd.Result {
@@ -601,6 +601,11 @@ func bindClientBody(c *nd.Ctx) nd.Result {
 				return fmt.Sprintf(`<iq type='error' id='%s'/>`, id), nil
 			case "wrong-id":
 				return fmt.Sprintf(`<iq type='result' id='%sx'><bind xmlns='%s'><jid>%s</jid></bind></iq>`, id, bindNS, esc(origin.Bare().String()+"/z")), nil
+			case "no-id":
+				// (a reply that does not name the request answers nothing)
+				return fmt.Sprintf(`<iq type='result'><bind xmlns='%s'><jid>%s</jid></bind></iq>`, bindNS, esc(origin.Bare().String()+"/z")), nil
+			case "empty-id":
+				return fmt.Sprintf(`<iq type='result' id=''><bind xmlns='%s'><jid>%s</jid></bind></iq>`, bindNS, esc(origin.Bare().String()+"/z")), nil
 			case "type-get":
 				return fmt.Sprintf(`<iq type='get' id='%s'><bind xmlns='%s'><jid>%s</jid></bind></iq>`, id, bindNS, esc(origin.Bare().String()+"/z")), nil
 			case "message-kind":
